@@ -415,3 +415,36 @@ def lookup_inv(chk, program, rule='LOOKUP-INV'):
         okk = len(rets) == 1 and canon(rets[0][2]) == want
         chk.check(okk, rule, f"{fn}::consults", file=PG, line=s['line'], func=fn, expected=f"{tname}.get(value)", found=[show(r[2]) for r in rets])
     chk.unit('lookup_names', n)
+
+def enc_state(chk, program, rule='ENC-STATE'):
+    """the encoder's only instance state is the fast-packet sequence counter, touched only by __init__ and _encode_fast_message;
+    the per-PGN encode function and the identifier are resolved afresh for every message (no cache between messages)"""
+    import ast
+    m = program.mod('encoder')
+    E = 'nmea2000/encoder.py'
+    allowed = {'NMEA2000Encoder.__init__': {'sequence_counter'}, 'NMEA2000Encoder._encode_fast_message': {'sequence_counter'}}
+    methods = {'_call_encode_function', '_encode_fast_message', '_build_header', '_encode', 'encode_ebyte', 'encode_usb', 'encode_actisense', 'encode_yacht_devices', 'bytes_to_hex_string'}
+    n = 0
+    for q, fn in m.defs.items():
+        if not q.startswith('NMEA2000Encoder.'):
+            continue
+        for node in ast.walk(fn):
+            if isinstance(node, ast.Attribute) and isinstance(node.value, ast.Name) and node.value.id == 'self':
+                par = getattr(node, '_parent', None)
+                is_call = isinstance(par, ast.Call) and par.func is node
+                if is_call and (node.attr in methods or f"NMEA2000Encoder.{node.attr}" in m.defs):
+                    continue
+                n += 1
+                ok = node.attr in allowed.get(q, set())
+                chk.check(ok, rule, f"{q}::self.{node.attr}", file=E, line=node.lineno, func=q,
+                          expected='no instance state besides the sequence counter of _encode_fast_message', found=f"self.{node.attr} {'written' if isinstance(node.ctx, ast.Store) else 'read'} in {q}",
+                          detail='' if ok else 'state kept between messages (a cache of encode functions or identifiers) makes the bytes of one message depend on the messages encoded before it')
+    fn = program.fn('encoder', 'NMEA2000Encoder._call_encode_function')
+    # encode_func is assigned only from globals().get(<name>)
+    for node in ast.walk(fn):
+        if isinstance(node, ast.Assign) and any(isinstance(t, ast.Name) and t.id == 'encode_func' for t in node.targets):
+            v = node.value
+            okv = isinstance(v, ast.Call) and ast.unparse(v.func) == 'globals().get' and len(v.args) >= 1 and isinstance(v.args[0], ast.Name)
+            chk.check(okv, rule, f"_call_encode_function::encode_func={ast.unparse(v)[:40]}", file=E, line=node.lineno, func='_call_encode_function',
+                      expected='encode_func = globals().get(<name formed from this message>)', found=ast.unparse(v)[:80])
+    chk.unit('encoder_self_accesses', n)
